@@ -196,6 +196,10 @@ class same_class:
         if g.name in self.stop or self.root is None:
             return False
         r = self.root
+        c0 = self.caller
+        if g.cls is not None and c0 is not None and getattr(c0, "mod", None) == g.mod and not g.is_async \
+                and any("staticmethod" in d for d in getattr(g, "decorators", ())):
+            return True  # a static helper of another class of the caller's module (shared by two classes of that module)
         if g.cls is not None and g.cls.name.startswith("_") and g.mod == r.mod:
             return True  # a private helper class of the same module (state carrier extracted from the explored function)
         if g.cls is not None and r.cls is not None:
